@@ -66,7 +66,13 @@ def configs(tier: str) -> list[tuple[Any, ...]]:
             out.append((True, s, True, 3, 1))
         out.append((False, "init", True, 4, 2, HOSTNAME))
         out.append((False, "hello_sent", True, 3, 2, ("10.0.0.1",), True))
+        out.append((False, "connected", True, 3, 2, ("10.0.0.1",), False, "nostop"))
+        out.append((False, "init", True, 3, 2, ("10.0.0.1",), False, "weird-connect"))
     else:
+        out.append((False, "connected", True, 4, 2, ("10.0.0.1",), False, "nostop"))
+        out.append((True, "hello_sent", True, 3, 2, ("10.0.0.1",), False, "nostop"))
+        out.append((False, "init", True, 4, 2, ("10.0.0.1",), False, "weird-connect"))
+        out.append((False, "init", True, 4, 2, ("10.0.0.1", "10.0.0.2"), False, "weird-connect"))
         for s in SEEDS_PLAIN:
             out.append((False, s, True, 4, 2))
             out.append((False, s, False, 3, 2))
@@ -90,14 +96,21 @@ def run(tier: str, seed: int) -> Result:
         noise, sd, login, depth, bound = cfg[:5]
         addrs = cfg[5] if len(cfg) > 5 else ("10.0.0.1",)
         dbg = bool(cfg[6]) if len(cfg) > 6 else False
+        opts = cfg[7] if len(cfg) > 7 else ""
         left = max(5.0, (t_end - time.monotonic()) / (len(cfgs) - i))
         from .. import world as _world
 
         _world.DEFAULT_DEBUG[0] = dbg
+        # "nostop": the connection is created without a stop callback (the constructor allows None);
+        # "weird-connect": the socket's connect() call raises an exception that is not an OSError (a port above 65535)
+        _world.NO_STOP_CALLBACK[0] = opts == "nostop"
+        _world.CONNECT_EXC[0] = OverflowError("connect(): port must be 0-65535.") if opts == "weird-connect" else None
         try:
             st = explore_parallel(factory, (noise, sd, login, addrs), depth=depth, bound=bound, budget_s=left, split_depth=1)
         finally:
             _world.DEFAULT_DEBUG[0] = False
+            _world.NO_STOP_CALLBACK[0] = False
+            _world.CONNECT_EXC[0] = None
         per_cfg.append(
             {
                 "noise": noise,
@@ -105,6 +118,7 @@ def run(tier: str, seed: int) -> Result:
                 "login": login,
                 "addresses": list(addrs),
                 "debug_logging": dbg,
+                "options": opts,
                 "depth": depth,
                 "deviation_bound": bound,
                 "executions": st.executions,
@@ -117,11 +131,11 @@ def run(tier: str, seed: int) -> Result:
         )
         for v in st.violations:
             clause = v["violated"][0]
-            key = f"{'noise' if noise else 'plain'}:{sd}{':hostname' if addrs != ('10.0.0.1',) else ''}:{clause}"
+            key = f"{'noise' if noise else 'plain'}:{sd}{':hostname' if addrs == HOSTNAME else ''}{':' + opts if opts else ''}:{clause}"
             res.add(
                 key,
                 clause,
-                {"harness": "lifecycle", "noise": noise, "seed_state": sd, "login": login, "addresses": list(addrs), "debug": dbg, "choices": v["choices"],
+                {"harness": "lifecycle", "noise": noise, "seed_state": sd, "login": login, "addresses": list(addrs), "debug": dbg, "opts": opts, "choices": v["choices"],
                  "violated": v["violated"], "observations": v["observations"]},
             )
         total.merge(st)
@@ -159,6 +173,8 @@ def replay(rp: dict[str, Any]) -> bool:
     from .. import world as _world
 
     _world.DEFAULT_DEBUG[0] = bool(d.get("debug"))
+    _world.NO_STOP_CALLBACK[0] = d.get("opts") == "nostop"
+    _world.CONNECT_EXC[0] = OverflowError("connect(): port must be 0-65535.") if d.get("opts") == "weird-connect" else None
     h = factory(d["noise"], d["seed_state"], d["login"], tuple(d.get("addresses") or ("10.0.0.1",)))
     w = h.fresh()
     try:
